@@ -1025,7 +1025,29 @@ def _f24(kind, fn, arg, detail):
                 return False
     return False
 
-KNOWN_SIGNATURES = {'F12': _f12, 'F24': _f24}
+def _f27(kind, fn, arg, detail):
+    """inproceedings / incollection whose whole "In ..." block is empty (booktitle and year present but
+    empty, nothing else in the block): the rendering ends with the bare word In"""
+    if kind != 'oracle' or fn != 1:
+        return False
+    m = re.match(r"entry '(.*)' does not end with a sentence terminator: '(.*)'$", str(detail), flags=re.S)
+    if not m:
+        return False
+    text = m.group(2)
+    if not (text == 'In' or text.endswith('<newblock>In')):
+        return False
+    for e in arg[1]:
+        if S(e[0]) == m.group(1):
+            if S(e[1]) not in ('inproceedings', 'incollection'):
+                return False
+            bt = _get_ci(e[2], 'booktitle')
+            try:
+                return bt is not None and _strip_braces(_dec(S(bt))) == ''
+            except Exception:
+                return False
+    return False
+
+KNOWN_SIGNATURES = {'F12': _f12, 'F24': _f24, 'F27': _f27}
 
 def replay_known(finding):
     p = finding.get('pinned')
@@ -1213,6 +1235,8 @@ def gen(tier, rng):
     yield ('pinned', 1, [[0, None, None, None, 0, 2, 0], [['a', 'misc', [['title', 'T']], []]], [['a', 'nokey']]])
     yield ('pinned', 1, [cfg0, [['a', 'article', [['title', 'T']], [['author', [P(last=['A'])]]]]], None])   # missing journal
     yield ('pinned', 1, [cfg0, [['a', 'misc', [['crossref', 'b']], []], ['b', 'misc', [['crossref', 'a']], []]], None])   # F4 cycle
+    yield ('pinned', 1, [cfg0, [['k', 'inproceedings', [['title', 'T'], ['booktitle', ''], ['year', '']], [['author', [P(last=['A'])]]]]], None])   # F27
+    yield ('pinned', 1, [cfg0, [['k', 'incollection', [['title', 'T'], ['booktitle', '{}'], ['year', ' ']], [['author', [P(last=['A'])]]]]], None])
     # ---- exhaustive small scope: string-level helpers
     for n in range(0, 6 if quick else 7):
         for s in itertools.product('aB -.', repeat=n):
@@ -1360,5 +1384,5 @@ TRUSTED_BASE = ['modelled (not verified) code: pybtex/style/template.py, style/f
                 'latexcodec (codecs.decode(.., "ulatex")) is a library: its results are handed to the model as a table']
 ASSUMPTIONS = ['letter classes / case mapping are ASCII (Base/PyChar); generated names and field values contain no non-ASCII letters',
                'unicodedata-based _strip_accents is the identity on the generated domain']
-PARTIAL = ['field coverage is relative to the dumped template trees (what the style reads is data); the four back ends are exercised by the oracle only (rendering succeeds, text back end ends with a terminator)',
+PARTIAL = ['F27 (an inproceedings/incollection entry whose booktitle and year are present but empty renders "... In") is a known finding', 'field coverage is relative to the dumped template trees (what the style reads is data); the four back ends are exercised by the oracle only (rendering succeeds, text back end ends with a terminator)',
            'F12 (alpha label collision) and F24 (empty entry) are known findings: alpha_labels_distinct and entry_terminated are proved in their _partial form with _refuted witnesses']
